@@ -44,6 +44,10 @@ def gen_cases(tier, seed):
             cases.append({"family": "pool", "entry": name, "seed": stable_hash(seed, "C06", "forced", name, j), "wrap": "none", "prefit": False,
                           "weights": False, "nq": 1, "nmax": 12 if tier == "quick" else 18, "rs": "int", "data": dat, "cmode_forced": cm,
                           "labels": lab, "batch": bat})
+        # every strategy once as a used object: it answered the next cycle and a three times denser pool before
+        cases.append({"family": "pool", "entry": name, "seed": stable_hash(seed, "C06", "used", name), "wrap": "none", "prefit": False,
+                      "weights": False, "nq": 1, "nmax": 12 if tier == "quick" else 18, "rs": "int", "data": "normal", "cmode_forced": "none",
+                      "labels": "half", "batch": "exact", "rmode": 2, "dense": True})
     for i in range(reps * 3):
         cases.append({"family": "pool", "entry": "IntervalEstimationThreshold", "seed": stable_hash(seed, "C06", "iet", i), "wrap": "iet",
                       "prefit": False, "weights": False, "nq": 1, "nmax": 10, "rs": "int", "data": None})
@@ -147,7 +151,7 @@ def run_case(desc):
 
         def repeat():
             qs = make()
-            mode = (desc["seed"] >> 6) % 3
+            mode = desc.get("rmode", (desc["seed"] >> 6) % 3)
             if mode == 0:           # equal arguments built anew for the second call
                 return qs.query(**call["fresh_kw"]()), qs.query(**call["fresh_kw"]())
             kw = call["fresh_kw"]()  # literally the same call: the same array and model objects are handed over again
@@ -169,6 +173,19 @@ def run_case(desc):
                     qs.query(**kw_b)
                 except Exception:
                     pass
+                if (desc.get("dense") or (desc["seed"] >> 9) % 2) and not ({"sample_weight", "utility_weight", "X_eval", "sample_weight_eval", "annotators",
+                                                    "A_perf"} & set(kw_b)):
+                    # ... and a call on another, three times denser pool (tables or caches sized by an earlier call must not
+                    # show in the answer to this one)
+                    try:
+                        kw_c = dict(kw_b)
+                        kw_c.pop("candidates", None)
+                        kw_c["X"] = np.vstack([np.asarray(kw_b["X"])] * 3)
+                        kw_c["y"] = np.concatenate([np.asarray(kw_b["y"])] * 3)
+                        qs.query(**kw_c)
+                        contracts.count("C06.used-object-answered-a-denser-pool")
+                    except Exception:
+                        pass
                 return a, qs.query(**kw)
             a = qs.query(**kw)
             return a, qs.query(**kw)
@@ -300,7 +317,7 @@ def run_case(desc):
             if not _eq(a, b):
                 how = ["second call with equal arguments built anew", "the literally identical call repeated (same array and model objects)",
                        "fresh object vs an object that answered another call before (one more label, batch size - 1)"][
-                    (desc["seed"] >> 6) % 3] if fam == "pool" else "repeated call"
+                    desc.get("rmode", (desc["seed"] >> 6) % 3)] if fam == "pool" else "repeated call"
                 viol.append({"component": comp, "kind": "repeated-call-on-same-object-differs", "trigger": "any",
                              "detail": "%s: %s vs %s" % (how, _short(a), _short(b))})
         else:
